@@ -53,6 +53,16 @@ def cases(tier, seed):
         pairs = [pairs[i] for i in sorted(idx)]
     for a, b in pairs:
         yield {"mesh": gen.random_mesh(rng, 40), "history": [a, b], "qseed": int(rng.integers(0, 10**6))}
+    # every order of the three element kinds on one cached tree (no reconstruction): the kinds are switched through the tree's setter
+    for t in ("ball", "kd"):
+        for sysm in ("spherical", "cartesian"):
+            lm = LIB_METRICS[(t, sysm)][0]
+            for order in itertools.permutations(KINDS):
+                yield {"mesh": gen.random_mesh(rng, 40), "history": [REQS.index((t, k, sysm, False, lm)) for k in order] + [REQS.index((t, order[0], sysm, False, lm))], "qseed": int(rng.integers(0, 10**6))}
+    # node coordinates given as whole degrees in an integer array (regular lat-lon grids are often written that way)
+    for i in range(12 if tier == "quick" else 400):
+        d = {"family": "latlon_global", "nlon": int(rng.choice([4, 6, 8, 12])), "nlat": int(rng.choice([2, 3, 6])), "ops": [], "integer_degrees": True}
+        yield {"mesh": d, "history": [int(x) for x in rng.integers(0, len(REQS), size=int(rng.integers(1, 4)))], "qseed": int(rng.integers(0, 10**6))}
     n = 90 if tier == "quick" else 10000
     for i in range(n):
         L = int(rng.integers(1, 5))
@@ -108,9 +118,19 @@ def _per_query(res, nq, j):
 
 def run_case(ctx, case):
     U = ux.ux()
-    m = gen.build(case["mesh"])
-    g = ux.grid_from_mesh(m)
-    twin = ux.grid_from_mesh(m)
+    m = gen.build({k: v for k, v in case["mesh"].items() if k != "integer_degrees"})
+    if case["mesh"].get("integer_degrees"):
+        lon_i, lat_i = (np.rint(a).astype(np.int64) for a in m.lonlat())
+        if np.allclose(lon_i, m.lonlat()[0], atol=1e-9) and np.allclose(lat_i, m.lonlat()[1], atol=1e-9):
+            mk = lambda: U.Grid.from_topology(lon_i.copy(), lat_i.copy(), m.padded(), fill_value=ux.INT_FILL)  # noqa: E731
+            m = gen.Mesh(ref.lonlat_to_xyz(lon_i.astype(float), lat_i.astype(float)), m.faces, m.desc, m.closed)
+            g, twin = mk(), mk()
+            ctx.observe("integer_typed_node_coordinates")
+        else:
+            g, twin = ux.grid_from_mesh(m), ux.grid_from_mesh(m)
+    else:
+        g = ux.grid_from_mesh(m)
+        twin = ux.grid_from_mesh(m)
     rng = np.random.default_rng(case["qseed"])
     hist = [REQS[i] for i in case["history"]]
     changed = any((hist[i][:3], hist[i][4]) != (hist[i - 1][:3], hist[i - 1][4]) for i in range(1, len(hist)))
